@@ -111,9 +111,10 @@ class Track(object):
                 for c in chord:
                     add_chord(c, duration * 2)
             else:
-                chord = NoteContainer().from_chord(chord)
-                if tun:
-                    chord = tun.find_chord_fingering(chord, return_best_as_NoteContainer=True)
+                if chord is not None:
+                    chord = NoteContainer().from_chord(chord)
+                    if tun:
+                        chord = tun.find_chord_fingering(chord, return_best_as_NoteContainer=True)
                 if not self.add_notes(chord, duration):
                     # This should be the standard behaviour of add_notes
                     dur = self.bars[-1].value_left()
@@ -123,10 +124,7 @@ class Track(object):
                     self.add_notes(chord, value.subtract(duration, dur))
 
         for c in chords:
-            if c is not None:
-                add_chord(c, duration)
-            else:
-                self.add_notes(None, duration)
+            add_chord(c, duration)
         return self
 
     def get_tuning(self):
